@@ -384,6 +384,8 @@ def _rows_unequal(impl, k):
 def matches(c):
     if c.op.startswith("det"):
         return (c.impl or "").startswith("same")
+    if c.op == "regexsub" and c.model == "unmodelled":
+        return True       # a pattern outside the modelled subset of Go's regexp: nothing is claimed, no expectation uses it
     """model = implementation, compared up to (and including) the step at which the property is already
     violated: what the code does with a ragged 'alignment' afterwards (index panics...) is not modelled"""
     if c.model == c.impl:
@@ -399,12 +401,20 @@ MULTI_CMDS = [['sort'], ['addid', '-n', 'x_'], ['rename', '-e', 's', '-b', 't'],
               ['subset', 'ref', 's1'], ['subset', '--indices', '0', '1'], ['subset', '-r', 's1'], ['clean', 'seqs', '-c', '0.5']]
 
 
+def gen_regexsub(rng, count):
+    from driver import cligen
+    return cligen.regex_cases(rng, count)
+
+
 def gen(rng, tier):
     from driver import multigen
     for c in _gen_core(rng, tier):
         yield c
     from driver import cligen
     for c in cligen.cases(rng, ['sort', 'addid', 'trim', 'rename', 'replace', 'concat', 'subset'], 40 if tier == "quick" else 400):
+        yield c
+    # Go's regexp against the hand-written model of the subset that the `-e` expectations use
+    for c in gen_regexsub(rng, 400 if tier == "quick" else 6000):
         yield c
     for _ in range(2 if tier == "quick" else 20):
         for argv in MULTI_CMDS:
